@@ -40,6 +40,8 @@ type Case struct {
 	First []int  `json:"first"`
 	Steps []Step `json:"steps"`
 	Pad   int    `json:"pad"` // additional unrelated entries in every list (size class)
+	// Form of every list of the history: "" v2 with cRLNumber | "nonumber" | "v1" (a source that never numbers its lists)
+	Form string `json:"form,omitempty"`
 }
 
 var failKinds = []string{"http-error", "truncated", "garbage", "empty", "bad-signature", "signer-unknown", "create-staging", "write-staging", "write-staging", "swap-error", "unsupported-critical", "refused"}
@@ -57,6 +59,7 @@ func drawSet(t *rapid.T, label string) []int {
 func genCase(t *rapid.T) Case {
 	c := Case{Disk: rapid.Bool().Draw(t, "disk"), First: drawSet(t, "first")}
 	c.Pad = rapid.SampledFrom([]int{0, 0, 3, 200}).Draw(t, "pad")
+	c.Form = rapid.SampledFrom([]string{"", "", "nonumber", "v1"}).Draw(t, "form")
 	n := rapid.IntRange(1, 7).Draw(t, "n")
 	for i := 0; i < n; i++ {
 		if rapid.IntRange(0, 2).Draw(t, fmt.Sprintf("ok%d", i)) == 0 {
@@ -100,11 +103,14 @@ type env struct {
 	plain   map[string][][]*x509.Certificate
 }
 
-func setup(disk bool, strict bool) (*env, error) {
+func setup(disk bool, strict bool, form ...string) (*env, error) {
 	id := caseSeq.Add(1)
 	e := &env{origin: world.NewOrigin()}
 	name := fmt.Sprintf("c08-%d-%d", os.Getpid(), id)
 	pki := world.NewSimplePKI(name, "p256a", "p256b")
+	if len(form) > 0 {
+		pki.Form = form[0]
+	}
 	e.w = world.NewCDPWorld(e.origin, pki, "/list.crl")
 	e.sibling = world.NewSimplePKI(name, "p256c", "p256d") // same names, other keys
 	e.other = world.NewSimplePKI(name+"-other", "p256e", "")
@@ -176,7 +182,7 @@ func toMap(set []int) map[int]bool {
 }
 
 func runCase(c Case, x *ev.Ctx) error {
-	e, err := setup(c.Disk, true)
+	e, err := setup(c.Disk, true, c.Form)
 	if err != nil {
 		return fmt.Errorf("setup: %v", err)
 	}
@@ -262,7 +268,8 @@ func runCase(c Case, x *ev.Ctx) error {
 	// residue: a failed refresh must not leave staging artefacts behind (see C20 for the full rule)
 	if sawOKAfterFail {
 		sort.Strings(trace)
-		x.NonTrivial(fmt.Sprintf("%v|%v|%d", c.Disk, trace, c.Pad))
+		x.Classf("form=%s", c.Form)
+		x.NonTrivial(fmt.Sprintf("%v|%v|%d|%s", c.Disk, trace, c.Pad, c.Form))
 	}
 	return nil
 }
